@@ -3,7 +3,7 @@ Every program is deterministic and straight enough for one concrete execution to
 import itertools
 
 CONNECTORS = ["assign", "binop", "call_return", "field", "element", "dict", "closure", "global", "tuple", "branch", "loop_once", "augmented",
-              "list_append", "field_append", "dict_append", "method_store", "alias_field"]
+              "list_append", "field_append", "dict_append", "method_store", "alias_field", "reassign_source"]
 SOURCES = ["call", "param"]
 SINKS = ["direct", "callee"]
 
@@ -65,6 +65,9 @@ class Chain:
                 body += ["om%d = Box()" % i, "om%d.put(%s)" % (i, cur), "%s = om%d.f" % (nv, i)]
             elif k == "alias_field":
                 body += ["oa%d = Box()" % i, "ob%d = oa%d" % (i + 50, i), "ob%d.f = %s" % (i + 50, cur), "%s = oa%d.f" % (nv, i)]
+            elif k == "reassign_source":
+                # the same variable is assigned from a source a second time; the second value travels on through its own assignment
+                body += ["keep%d = %s" % (i, cur), "%s = source()" % cur, "%s = %s" % (nv, cur)]
             elif k == "loop_once":
                 body += ['%s = "clean"' % nv, "for i%d in range(1):" % i, "    %s = %s" % (nv, cur)]
             else:
@@ -83,7 +86,7 @@ class Chain:
 
 
 JS_CONNECTORS = ["assign", "binop", "call_return", "field", "element", "dict", "closure", "global", "branch", "loop_once", "augmented",
-                 "list_append", "field_append", "method_store", "alias_field"]
+                 "list_append", "field_append", "method_store", "alias_field", "reassign_source"]
 
 
 class JsChain(Chain):
@@ -124,6 +127,8 @@ class JsChain(Chain):
                 body += ["setg%d(%s);" % (i, cur), "var %s = G0;" % nv]
             elif k == "branch":
                 body += ["var %s = null;" % nv, "if (1 > 0) {", "    %s = %s;" % (nv, cur), "} else {", '    %s = "clean";' % nv, "}"]
+            elif k == "reassign_source":
+                body += ["var keep%d = %s;" % (i, cur), "%s = source();" % cur, "var %s = %s;" % (nv, cur)]
             elif k == "loop_once":
                 body += ['var %s = "clean";' % nv, "for (var i%d = 0; i%d < 1; i%d++) {" % (i, i, i), "    %s = %s;" % (nv, cur), "}"]
             elif k == "list_append":
